@@ -141,6 +141,18 @@ theorem reconnect_offset (start : Int) (rid : Bytes) (s0 : St) (h0 : Started sta
   refine ⟨he, hc, by rw [hr, hi.rid], ?_⟩
   rw [ho, hi.base, psyncArg_ok code_constants (by omega), Spec.Offsets.psyncOffset, hi.len]
 
+/-- After a start that ended in `+FULLRESYNC rid' off` — whatever run id the tool had ASKED with (`?` on a fresh start, a
+    checkpoint's otherwise) — every later re-PSYNC carries the ANNOUNCED run id `rid'` and the offset off + received + 1.
+    (`started_begin_full` composed with `reconnect_offset`; the `full` histories of the harness ask with a different id.) -/
+theorem reconnect_uses_announced_runid (inOff : Int) (rid rid' : Bytes) (off : Int) (hs : 0 ≤ off)
+    (h : List Ev) (e : Ev) (c : Nat) (r : Bytes) (o : Int) :
+    let s := run Consts.code (begin Consts.code inOff rid (.full rid' off)) h
+    Out.psync c r o ∈ emitted Consts.code s e →
+      r = rid' ∧ o = Spec.Offsets.psyncOffset off s.pipe.length := by
+  intro s hm
+  obtain ⟨_, _, hr, ho⟩ := reconnect_offset off rid' _ (started_begin_full inOff rid rid' off) hs h e c r o hm
+  exact ⟨hr, ho⟩
+
 /-- **tag_base_constant.** The base that parseSourceCommand adds to the decoder position
     (`ds.sourceOffset`) is the announced start offset after every history. -/
 theorem tag_base_constant (start : Int) (rid : Bytes) (s0 : St) (h0 : Started start rid s0) (h : List Ev) :
